@@ -13,6 +13,7 @@ class FunctionReport:
         self.contract = contract
         self.obligations = []
         self.tool_limit = None
+        self.soft_limit = None      # a proof step could not be placed, the remaining obligations are still valid
         self.paths = 0
         self.returns = 0
         self.merges = 0
@@ -76,7 +77,13 @@ def _run_body(c, fn, case, ctx, I, suffix, tag=""):
     outs = I.exec_block(strip_docstring(fn.body), st)
     cuts = c.options.get("cuts")
     if cuts and len(ctx.__dict__.get("cuts_used", ())) != len(cuts):
-        raise ToolLimit("contract cut point(s) of %s not found in the source (statement text changed)" % c.name)
+        missing = [cu for i, cu in enumerate(cuts) if i not in ctx.__dict__.get("cuts_used", ())]
+        msg = "contract cut point(s) of %s not found in the source (statement text changed): %s" % (c.name, [cu["before"] for cu in missing])
+        if any(cu.get("havoc") for cu in missing):
+            raise ToolLimit(msg)
+        # assertion-only cuts forget nothing: every other obligation is still generated (and can still report a violation); only the
+        # cut's own assertions are lost, which is reported as a tool limit of this function (exit 3 unless something is refuted)
+        ctx.__dict__.setdefault("soft_limits", []).append(msg)
     return entry, outs
 
 
@@ -129,9 +136,14 @@ def _generate_case(c, fn, case, ci, registry, rep):
                 g = g.val
             ctx.cur_func = c.name + suffix
             ob_hyps = post.pc
-            if g is True:
-                continue
             name = "%s.ensures.%s%s" % (c.name + suffix, eid, "" if nret == 1 else ".r%d" % nret)
+            if g is True:
+                # decided while evaluating the clause on this path (e.g. a reads clause over the recorded read set, or an antecedent that is
+                # concretely false here): still listed by name, discharged without a solver call
+                triv = Obligation(name, "ensures", c.name, [], z3.BoolVal(True), fn.lineno, tags, text + "   [true by evaluation on this path]")
+                triv.trivial = True
+                ctx.obligations.append(triv)
+                continue
             gg = z(g) if not isinstance(g, z3.ExprRef) else g
             base = Obligation(name, "ensures", c.name, list(ob_hyps), gg, fn.lineno, tags, text)
             ctx.obligations += _case_split(I, base, c.options.get("split", {}).get(eid, ()), post)
@@ -143,9 +155,11 @@ def _generate_case(c, fn, case, ci, registry, rep):
     rep.dead_paths += ctx.dead_paths
     rep.dropped += ctx.dropped
     rep.notes += ctx.tool_notes
+    for m in ctx.__dict__.get("soft_limits", ()):
+        rep.soft_limit = m
     if getattr(ctx, "tier_b_skipped", 0):
         rep.notes.append("%s: %d obligations of kinds %s are NOT claimed by this contract (tier B: bounded stand-in only)"
-                         % (c.name, ctx.tier_b_skipped, sorted(c.options.get("tier_b_kinds"))))
+                         % (c.name, ctx.tier_b_skipped, sorted(c.options.get("tier_b_kinds") or ()) + ["%s at `%s`" % kf for kf in (c.options.get("tier_b_sites") or ())]))
 
 
 def _merged_run(c, fn, case, ctx, I, suffix, tag):
